@@ -19,7 +19,7 @@ func main() {
 		"C08": harness.Multi{Property: "C08", Parts: []harness.Harness{
 			harness.External{Property: "C08", Ver: "c08-plat-v1", M: plat.C08Meta(), Quick: 400, Thor: 20000, Bin: "plat.test", TestName: "TestJob", Classify: plat.ClassifyExit},
 			c09.H{Filters: true, Prop: "C08"},
-		}, Weights: []int{1, 8}},
+		}, Weights: []int{1, 5}, Quick: 2400, Thor: 240000},
 		"C09": c09.H{},
 		"C10": c10.H{},
 		"C11": harness.External{Property: "C11", Ver: "c11-v5", M: plat.C11Meta(), Quick: 600, Thor: 20000, Bin: "plat.test", TestName: "TestJob", Classify: plat.ClassifyExit},
